@@ -67,6 +67,11 @@ def _case(draw):
             c2 = dict(c2, g=c2["g"] + [[{k2: 2 * a for k2, a in co.items()}, 2 * c], [{v: co[v]}, c + 20.0]])
     else:
         plant = "none"
+    if draw(st.integers(0, 7)) == 0 and c1["a"]:
+        # the first guarantee of an operand restates one of its own assumptions word for word
+        t0 = draw(st.sampled_from(c1["a"]))
+        c1 = dict(c1, g=[[dict(t0[0]), t0[1]]] + c1["g"])
+        plant += "+restated"
     del shared, w
     base.update(c1=c1, c2=c2, op=op, plant=plant)
     base.pop("witness", None)
